@@ -146,8 +146,6 @@ func runWirePipeline(we *wireEnv, cases []*c13Case) {
 		cs.stage = "compile"
 	})
 	// compile both trees; attribute diagnostics per package
-	tc := time.Now()
-	defer func() { fmt.Printf("note: go build of both trees took %.0fs\n", time.Since(tc).Seconds()) }()
 	out, _ := pipe.RunGo(we.Dir, "build", "-buildvcs=false", "-gcflags=-e", "./w/...", "./k/...")
 	werrs := splitBuildErrors(string(out), "corpus/w/")
 	kerrs := splitBuildErrors(string(out), "corpus/k/")
